@@ -310,6 +310,23 @@ def runtime_part(run, tier, seed):
                     ok_part = sorted(ally.tolist()) == list(range(n))
                     if not ok_pair:
                         run.violation(MOD + "split_dataset.features_and_labels_stay_paired", "a feature row is paired with the wrong label", key=key, replay={})
+                    # vector-valued labels (one-hot rows, several targets per sample): each feature row still comes with ITS label row, whole
+                    if n and vsf in (None, 0.25, 0.5):
+                        y2 = np.stack([np.arange(n, dtype=np.float32), np.arange(n, dtype=np.float32) * 10 + 1, -np.arange(n, dtype=np.float32)], 1)
+                        np.random.seed(seed + n)
+                        try:
+                            sets2 = [s_ for s_ in data.split_dataset(X, y2, tsf, vsf, shuffle) if s_ is not None]
+                            ok2 = True
+                            for xs, ys in sets2:
+                                xs, ys = np.asarray(xs), np.asarray(ys)
+                                idx = ((xs.reshape(-1, 2)[:, 0] - 100) / 2).astype(int) if len(xs) else np.zeros(0, dtype=int)
+                                ok2 = ok2 and (ys.shape == (len(idx), 3) if len(idx) else True) and (len(idx) == 0 or np.array_equal(ys.reshape(-1, 3), y2[idx]))
+                        except Exception as e:
+                            ok2 = False
+                        run.rt(("split-vector-labels", n, round(tsf, 3), None if vsf is None else round(vsf, 3), shuffle))
+                        if not ok2:
+                            run.violation(MOD + "split_dataset.features_and_labels_stay_paired", "with vector-valued labels of shape (n, 3) a feature row does not come with its own label row (shape or values)",
+                                          key={**key, "labels": "vector-valued"}, replay=key)
                     if not ok_part:
                         run.violation(MOD + "split_dataset.every_sample_in_exactly_one_set", "labels over all sets: %s" % ally.tolist(), key=key, replay={})
                     if not shuffle:
